@@ -416,6 +416,13 @@ func registerReflect(in map[string]intrinsic) {
 		p.store(r.addr, sl[:p.concretize(n, "SetLen")])
 		return nil
 	})
+	val("MethodByName", func(p *Path, r *rval, a []value) value {
+		// only for types without methods (unnamed slices, arrays, maps, basic types): no such method
+		if types.NewMethodSet(r.t).Len() != 0 || types.NewMethodSet(types.NewPointer(r.t)).Len() != 0 {
+			panic(abortPath{"unsupported", "reflect.Value.MethodByName on a type with methods: " + r.t.String()})
+		}
+		return zeroRV(p)
+	})
 	val("Slice", func(p *Path, r *rval, a []value) value {
 		sl, isSlice := p.rget(r).([]value)
 		if !isSlice {
